@@ -59,6 +59,10 @@ def _small_c07(args):
         out.append(x_arith.observe_arith(fx, np, [pid], op, tx, ty, cxs, cys, route='operator', method='repr'))
         # operands with a history (sticky overflow/underflow/inaccuracy flags already raised)
         out.append(x_arith.observe_arith(fx, np, [pid], op, tx, ty, cxs, cys, route=routes[(idx + j + 1) % 3], dirty=True))
+        # operands that received their codes by in-place writes after having been used (anything cached about them is stale)
+        out.append(x_arith.observe_arith(fx, np, [pid], op, tx, ty, cxs, cys, route=routes[(idx + j + 2) % 3], dirty=x_arith.HIST[(idx + j) % 4]))
+        out.append(x_arith.observe_arith(fx, np, [pid], op, tx, ty, [cxs[(idx * 7) % len(cxs)]], [cys[(idx * 7) % len(cys)]], scalar=True,
+                                         dirty=x_arith.HIST[(idx + j + 1) % 3]))
     # scalar corner calls (per-element flags) and broadcasting (scalar with array, 2-D with 1-D)
     for op in ('add', 'sub', 'mul'):
         for a in corners(tx)[:4]:
@@ -235,7 +239,8 @@ def _wide_c07(args):
             out.append(x_arith.observe_arith(fx, np, [pid], op, tx, ty, cxs, cys, route=rng.choice(['operator', 'function', 'numpy']),
                                              method=rng.choice(['raw', 'raw', 'repr'])))
             out.append(x_arith.observe_arith(fx, np, [pid], op, tx, ty, [rng.choice(a)], [rng.choice(b)], scalar=True,
-                                             dirty=rng.random() < 0.5))
+                                             dirty=rng.choice([False, True, 'inplace', 'resign'])))
+            out.append(x_arith.observe_arith(fx, np, [pid], op, tx, ty, cxs, cys, dirty=rng.choice(x_arith.HIST)))
         # random expression tree of depth <= 4 over + - * : every node is one judged row
         pool = [(tx, rng.choice(_codes(rng, tx, 2))), (ty, rng.choice(_codes(rng, ty, 2)))]
         for _ in range(rng.randint(2, 6)):
